@@ -11,6 +11,9 @@ with Model.Store.file_frame / stream_frame.
 Search (independent of Coq): the same runs are compared with a plain Python dict.
 Sampled assumption: the codec hypotheses of the framing theorems are tested on the value universe."""
 import base64
+import gc
+import os
+import threading
 import decimal
 import fractions
 import hashlib
@@ -37,7 +40,8 @@ EVIDENCE = dict(
     level='proof',
     rule='case = one operation sequence (<= 30 operations over 4 keys) on one store configuration, with the result of every '
          'operation as observed on the real store; non-trivial when it contains a dump followed by at least one observing '
-         'operation (load/can_load/list/remove/remove_many/cleanup/pack/killed pack/reopen); distinct = distinct (configuration, operations) '
+         'operation (load/can_load/list/remove/remove_many/cleanup/pack/killed pack/reopen); dumps that do not complete '
+         '(the encoding raises; still in progress on another store object) are part of the histories; distinct = distinct (configuration, operations) '
          'tuples; a third of the random sequences on reopenable configurations are made of sessions (close+reopen '
          'boundaries) that each issue ONE kind of state-changing operation; besides the random sequences, one round-trip sequence (dump, load, pack, reopen, load, list, remove) per '
          '(value of the universe, configuration; the removal is remove / remove_many / cleanup in turn; on the packing '
@@ -412,7 +416,34 @@ class Driver:
                 st.backend = None           # keep dict_store.__del__ from writing again
         self.store = self._open()
 
+    def begin_dump(self, key, value):
+        """another worker (its own store object) starts dump(value, key) and is held inside the encoder: the
+        temporary file exists, nothing is published"""
+        other = self._open()
+        gate = storefaults.Gate(value)
+        res = {}
+
+        def work():
+            try:
+                other.dump(gate, key)
+            except BaseException as e:
+                res['err'] = e
+        t = threading.Thread(target=work, daemon=True)
+        t.start()
+        if not gate.entered.wait(30) and t.is_alive():
+            raise RuntimeError('C06 harness: the gated dump never reached the encoder')
+        self.pending = (t, gate, res)
+
+    def end_dump(self):
+        t, gate, res = self.pending
+        self.pending = None
+        gate.release.set()
+        t.join(60)
+        return res.get('err')
+
     def finish(self):
+        if getattr(self, 'pending', None):
+            self.end_dump()
         st = self.store
         self.store = None
         if st is not None:
@@ -487,11 +518,39 @@ def apply_op(drv, op, U):
         if kind == 'list':
             return ('keys', sorted(key_id(k) for k in st.list()))
         if kind == 'cleanup':
-            return ('count', int(st.cleanup([Stub(KEYS[i - 1]) for i in op[1]])))
+            # file_store.cleanup also sweeps (and counts) the stray files of tempfiles/ that dumps which did not
+            # complete left behind; the model's count is about results: count them apart
+            stray = 0
+            if drv.backend == 'file' and os.path.isdir(st.tempdir()):
+                stray = len(os.listdir(st.tempdir()))
+            return ('count', int(st.cleanup([Stub(KEYS[i - 1]) for i in op[1]])) - stray)
         if kind == 'pack':
             return ('count', int(st.update_pack()))
         if kind == 'reopen':
             drv.reopen()
+            return ('unit',)
+        if kind == 'dump_fail':
+            # dump of a value whose encoding raises: the exception must come out and nothing may change
+            kb = KEYS[op[1] - 1]
+            how = 'nothing'
+            if drv.backend == 'file' and kb in st.packed:
+                # recorded observation (DESIGN.md, C05/C06): dump() drops the packed copy of the key BEFORE it writes
+                how = 'kept' if os.path.exists(st._getfname(kb)) else 'dropped'
+            try:
+                st.dump(storefaults.failing_value(op[2], op[3]), kb)
+            except BaseException as e:
+                if type(e).__name__ != op[2]:
+                    raise
+                gc.collect()
+                return ('raised', op[2], how)
+            return ('unit',)
+        if kind == 'dump_begin':
+            drv.begin_dump(KEYS[op[1] - 1], U.entries[op[2]]['value'])
+            return ('unit',)
+        if kind == 'dump_end':
+            e = drv.end_dump()
+            if e is not None:
+                return ('err', err_code(e), '%s: %s' % (type(e).__name__, str(e)[:120]))
             return ('unit',)
         if kind == 'pack_crash':
             # `jug pack` dies at its (n+1)-th unlink of a result file; the next process opens the directory
@@ -528,8 +587,12 @@ def oracle_step(d, op):
         for k in [k for k in d if k not in op[1]]:
             del d[k]
         return 'noerr'
-    if kind in ('pack', 'reopen', 'pack_crash'):
+    if kind in ('pack', 'reopen', 'pack_crash', 'dump_begin'):
         return 'noerr'
+    if kind == 'dump_fail':
+        return ('raised',)
+    if kind == 'dump_end':
+        return ('unit',)            # the caller stores the value of the matching dump_begin
     raise ValueError(kind)
 
 
@@ -553,9 +616,20 @@ def run_sequence(backend, opts, ops, U):
             d = {}
             done = []
             crashed = False
+            begun = None
             for i, op in enumerate(ops):
                 want = oracle_step(d, op)
                 obs = apply_op(drv, op, U)
+                if op[0] == 'dump_begin':
+                    begun = (op[1], op[2])
+                elif op[0] == 'dump_end' and begun is not None:
+                    d[begun[0]] = begun[1]          # the other worker's result is published now
+                    begun = None
+                elif op[0] == 'dump_fail' and obs[0] == 'raised':
+                    if obs[2] == 'dropped':
+                        d.pop(op[1], None)
+                    elif obs[2] == 'kept':
+                        obs = obs + (d.get(op[1], -1),)
                 obs_all.append(obs)
                 done.append(op)
                 crashed = crashed or op[0] == 'pack_crash'
@@ -578,13 +652,36 @@ def run_sequence(backend, opts, ops, U):
 # ------------------------------------------------------------------------------------------------
 # generators, rendering
 # ------------------------------------------------------------------------------------------------
-def gen_ops(rng, U, pack, reopen):
+FAIL_EXC = ('ValueError', 'OSError', 'TypeError', 'KeyboardInterrupt')
+
+
+def gate_value(rng, U):
+    """a value for a dump in progress: not an exact ndarray (the gate makes it take the pickle branch)"""
+    while True:
+        v = U.pick(rng)
+        if not U.entries[v]['isarr'] and U.entries[v]['size_enc'] < (1 << 20):
+            return v
+
+
+def gen_ops(rng, U, pack, reopen, concurrent=False):
     n = rng.randint(4, 25)
     ops = []
     nk = len(KEYS)
     for _ in range(n):
         r = rng.random()
-        if r < 0.34:
+        if r < 0.04:
+            # a dump that does not complete: the encoding of the value raises
+            ops.append(('dump_fail', rng.randint(1, nk), rng.choice(FAIL_EXC), rng.choice(['list', 'oarr'])))
+        elif r < 0.075 and concurrent:
+            # another worker's dump is in progress while this store object observes and works (no cleanup / pack in
+            # the window: they are not meant to run concurrently with a writer)
+            ops.append(('dump_begin', rng.randint(1, nk), gate_value(rng, U)))
+            for _w in range(rng.randint(1, 4)):
+                r2 = rng.random()
+                ops.append(('list',) if r2 < 0.35 else (rng.choice(['can_load', 'load']), rng.randint(1, nk)) if r2 < 0.75
+                           else ('dump', rng.randint(1, nk), U.pick(rng)) if r2 < 0.9 else ('remove', rng.randint(1, nk)))
+            ops.append(('dump_end',))
+        elif r < 0.34:
             ops.append(('dump', rng.randint(1, nk), U.pick(rng)))
         elif r < 0.50:
             ops.append(('load', rng.randint(1, nk)))
@@ -707,7 +804,38 @@ def shape_lit(sh):
     return '(Some (%s, %s, %s))' % tuple(listlit([poslit(i) for i in part]) for part in sh)
 
 
+def model_view(ops, obs):
+    """What the model is told.  A dump whose encoding raised is no operation at all (exception: the key was in the
+    pack - the packed copy was dropped first: an SRemove, or, when its file also existed, a re-dump of the same
+    value); a dump in progress on another store object is an SDump at the point where it finishes."""
+    mops, mobs = [], []
+    begun = None
+    for op, o in zip(ops, obs):
+        k = op[0]
+        if k == 'dump_begin':
+            begun = (op[1], op[2])
+        elif k == 'dump_end':
+            mops.append(('dump',) + (begun or (1, 0)))
+            mobs.append(o)
+            begun = None
+        elif k == 'dump_fail':
+            if o[0] != 'raised':
+                mops.append(('load', op[1]))          # not an admissible answer: the case fails in coqc as well
+                mobs.append(('err', 9, 'dump of an unencodable value returned'))
+            elif o[2] == 'dropped':
+                mops.append(('remove', op[1]))
+                mobs.append(('bool', True))
+            elif o[2] == 'kept':
+                mops.append(('dump', op[1], o[3]))
+                mobs.append(('unit',))
+        else:
+            mops.append(op)
+            mobs.append(o)
+    return mops, mobs
+
+
 def case_lit(cfg, U, ops, obs, shape):
+    ops, obs = model_view(ops, obs)
     used = set(op[2] for op in ops if op[0] == 'dump')
     return '(%s, %s, %s, %s, %s)' % (cfg, U.table_lit(used), listlit([op_lit(o) for o in ops]),
                                      listlit([obs_lit(o) for o in obs]), shape_lit(shape))
@@ -716,8 +844,8 @@ def case_lit(cfg, U, ops, obs, shape):
 def describe_ops(ops, U):
     out = []
     for op in ops:
-        if op[0] == 'dump':
-            out.append(['dump', op[1], U.entries[op[2]]['name']])
+        if op[0] in ('dump', 'dump_begin'):
+            out.append([op[0], op[1], U.entries[op[2]]['name']])
         else:
             out.append([op[0]] + [list(x) if isinstance(x, (list, tuple)) else x for x in op[1:]])
     return out
@@ -726,8 +854,10 @@ def describe_ops(ops, U):
 def parse_ops(desc, U):
     ops = []
     for o in desc:
-        if o[0] == 'dump':
-            ops.append(('dump', int(o[1]), U.by_name[o[2]]))
+        if o[0] in ('dump', 'dump_begin'):
+            ops.append((o[0], int(o[1]), U.by_name[o[2]]))
+        elif o[0] == 'dump_fail':
+            ops.append(('dump_fail', int(o[1]), o[2], o[3]))
         elif o[0] in ('remove_many', 'cleanup'):
             ops.append((o[0], [int(i) for i in o[1]]))
         elif o[0] in ('load', 'can_load', 'remove', 'pack_crash'):
@@ -966,6 +1096,29 @@ def run(ck):
                 ops = ([('dump', 1, ids3[0]), ('dump', 2, ids3[1]), ('dump', 3, ids3[2]), ('reopen',)] + mut
                        + [('reopen',), ('list',), ('can_load', 1), ('can_load', 2), ('load', 3), ('can_load', 4)])
                 jobs.append((name, backend, opts, ops, True))
+    # a dump that does not complete - the encoding raises (every configuration x exception x branch), or it is still
+    # in progress on another store object (configurations that several workers can share) - leaves no trace
+    for name, backend, opts0 in CONFIGS:
+        for comp in ((False, True) if opts0.get('compress', 0) is None else (None,)):
+            opts = dict(opts0)
+            if comp is not None:
+                opts['compress'] = comp
+            for j, exc in enumerate(FAIL_EXC):
+                for shape_ in ('list', 'oarr'):
+                    ops = [('dump', 1, ids3[0]), ('dump', 2, ids3[2]), ('dump_fail', 1, exc, shape_), ('dump_fail', 3, exc, shape_),
+                           ('list',), ('can_load', 1), ('load', 1), ('can_load', 3)]
+                    if opts.get('pack'):
+                        ops += [('pack',), ('list',), ('dump_fail', 4, exc, shape_), ('dump_fail', 2, exc, shape_), ('list',), ('can_load', 2)]
+                    if name != 'dict':
+                        ops += [('reopen',), ('list',), ('load', 1)]
+                    ops += [('cleanup', [1, 3]), ('list',), ('can_load', 2)]
+                    jobs.append((name, backend, opts, ops, True))
+            if name in ('file', 'file+compress_numpy', 'redis-fake'):
+                for key in (2, 1):
+                    ops = [('dump', 1, ids3[0]), ('dump_begin', key, ids3[1]), ('list',), ('can_load', 2), ('load', 1), ('dump', 3, ids3[2]),
+                           ('remove', 1), ('list',), ('reopen',), ('list',), ('can_load', key), ('dump_end',), ('list',), ('load', key),
+                           ('reopen',), ('list',), ('load', key), ('cleanup', [key]), ('list',)]
+                    jobs.append((name, backend, opts, ops, True))
     nfixed = len(jobs)
     for i in range(nseq):
         name, backend, opts = CONFIGS[i % len(CONFIGS)]
@@ -977,7 +1130,8 @@ def run(ck):
             ops = gen_session_ops(ck.rng, U, pack=bool(opts.get('pack')))
             ck.count('histories made of single-mutation sessions')
         else:
-            ops = gen_ops(ck.rng, U, pack=bool(opts.get('pack')), reopen=reopen)
+            ops = gen_ops(ck.rng, U, pack=bool(opts.get('pack')), reopen=reopen,
+                          concurrent=name in ('file', 'file+compress_numpy', 'redis-fake'))
         jobs.append((name, backend, opts, ops, False))
 
     cases, meta = [], []
@@ -994,6 +1148,9 @@ def run(ck):
             ck.count('op:' + op[0])
             if op[0] == 'load':
                 ck.count('load:' + o[0])
+            if op[0] == 'dump_fail' and o[0] == 'raised':
+                ck.count('dump whose encoding raises %s: %s' % (op[2], {'nothing': 'nothing changed', 'dropped':
+                         'the key was in the pack and lost its value (recorded observation)', 'kept': 'the key was in the pack and a file: file kept'}[o[2]]))
             if op[0] == 'dump':
                 e = U.entries[op[2]]
                 ck.count('value:' + ('None' if e['isnone'] else 'ndarray' if e['isarr'] else
